@@ -85,6 +85,16 @@ def check_neighbour_dot(run, pkg, fname):
         if e.kind == "assign" and len(e.loops) == 1 and e.data["value"][0] == "call" and e.data["value"][1] == ".sum" and kw(e.data["value"], "axis", 1) == C(1):
             med, mev = e.data["value"], e
     if med is None:
+        # the dot products may be written inline in the statement that consumes them (no separate temporary)
+        for e in it.events:
+            if e.kind in ("store", "aug", "assign") and len(e.loops) == 1:
+                for x in walk(e.data["value"]):
+                    if x[0] == "call" and x[1] == ".sum" and kw(x, "axis", 1) == C(1) and x[2] and x[2][0][0] == "bin" and x[2][0][1] == "*" and any(z == VEC for z in walk(x)):
+                        med, mev = x, e
+                        break
+            if med is not None:
+                break
+    if med is None:
         vectorised_neighbour_dot(run, pkg, it, fq, fname, NL)
         return
     L = it.loops[mev.loops[0]]
